@@ -465,6 +465,13 @@ PINNED = [
     (1, [0, [[TOP, '\\citation{a}\n']]]), (1, [1, [[TOP, '\\bibdata{a}\n']]]), (1, [2, [[TOP, '\\bibstyle{a}\n']]]), (1, [0, [[TOP, '']]]),
     (1, [0, []]), (1, [0, [[TOP, '\\@input{a.aux}\n']]]), (1, [0, [[TOP, '\\bibdata{d}\\bibstyle{s}\n\\@input{zz.aux}\n']]]),
     (1, [0, [[TOP, '\\citation{a,A,a}\r\n\\bibstyle{s}\r\\bibdata{d}']]]),
+    # lines that only look like commands are ignored; the value runs to the last closing brace
+    (1, [0, [[TOP, ' \\citation{z}\n%\\citation{c}\n\\bibstyle{s}\n\\bibdata{d}\n\\citation{a}% }\n\\citation{{b}}x\n']]]),
+    (1, [1, [[TOP, '\t\\bibstyle{q}\n\\bibstyle{s}\n\\bibdata{d}\n x\\bibdata{e}\n\\citation{k}\n']]]),
+    # three spellings; the report compares with the most recent one
+    (1, [0, [[TOP, '\\bibstyle{s}\n\\bibdata{d}\n\\citation{a}\n\\citation{A}\n\\citation{A}\n\\citation{a}\n']]]),
+    # the same file read twice; a file nested three deep; errors on the way back
+    (1, [0, [[TOP, '\\@input{b.aux}\n\\@input{b.aux}\n\\bibdata{d}\n'], ['b.aux', '\\bibstyle{s}\n\\@input{c.aux}\n\\bibstyle{t}\n'], ['c.aux', '\\citation{q}\n\\bibdata{e}\n']]]),
 ]
 
 def gen(tier, rng):
